@@ -190,6 +190,8 @@ type Run struct {
 	ctxs           []*subCtx
 	localDepth     int
 	noSummaries    bool
+	stickyPerm     map[stickyKey]int
+	runRedirects   map[string]*Closure // harness-installed replacements (verifrt.Redirect)
 	pcHash         [16]byte
 	pcHashStack    [][16]byte
 	scopeOpen      bool
@@ -473,7 +475,7 @@ func (r *Run) snapshotVerdict(kind, id, msg, pos string, model map[string]*big.I
 		v.Nondet = append(v.Nondet, rec)
 	}
 	for _, d := range r.log {
-		if d.Kind == "sched" || d.Kind == "preempt" || d.Kind == "select" || (d.Kind == "maporder" && d.Taken != 0) {
+		if d.Kind == "sched" || d.Kind == "preempt" || d.Kind == "select" || (d.Kind == "maporder" && d.N > 1) {
 			v.Schedule = true
 		}
 	}
